@@ -162,6 +162,11 @@ def gen_cases(ctx):
     nrand = 400 if ctx.quick() else 6000
     strings += [random_string(rng) for _ in range(nrand)]
     cases = []
+    cdir = vlib.CORPUS / "C16"
+    if cdir.exists():
+        for p in sorted(cdir.glob("*.cases.json")):
+            cases += [Case.from_dict(d) for d in json.loads(p.read_text())]
+    ncorpus = len(cases)
 
     def numbers():
         return rng.choice(PERMS), rng.choice(IDS), rng.choice(IDS), rng.choice(DEVS)
@@ -205,7 +210,7 @@ def gen_cases(ctx):
     for p in PERMS:
         cases.append(Case(None, "dir", p, rng.choice(IDS), rng.choice(IDS), 0, b"", [], "rootdir"))
     cases = [c for c in cases if all(b"\n" not in x and b"\0" not in x for x in c.comps)]
-    return cases, len(strings), nexh, nrand
+    return cases, len(strings), nexh, nrand, ncorpus
 
 
 def gen_split_lines(ctx):
@@ -387,6 +392,13 @@ class Pair:
         return self.ctx.driver(["c16"], "\n".join(lines) + "\n")
 
 
+def capped(ctx, caps, cat, key, what, replay, found_input, limit=5):
+    """report at most `limit` violations per category (each still counted in the evidence)"""
+    caps[cat] = caps.get(cat, 0) + 1
+    if caps[cat] <= limit:
+        ctx.violation(key, what, replay, found_input)
+
+
 def norm_err(l):
     return "err" if l.startswith("err") else l
 
@@ -470,6 +482,7 @@ def check_cases(ctx, pair, cases, stats):
     model2 = pair.model(ops2)
     dec = {i: (a, b) for i, a, b in zip(idx, impl2, model2)}
     n_new = n_old = n_both = n_fail = n_err = 0
+    caps = {}
     nontrivial = set()
     known = {}
     samples = []
@@ -477,27 +490,27 @@ def check_cases(ctx, pair, cases, stats):
         got = norm_err(impl[i])
         new, old, exp = norm_err(model[3 * i]), norm_err(model[3 * i + 1]), model[3 * i + 2]
         rep = dict(c.as_dict(), impl=impl[i], model_new=model[3 * i], model_old=model[3 * i + 1], expect=exp)
+        matches = got in (new, old)
         if got == new and got == old:
             n_both += 1
         elif got == new:
             n_new += 1
         elif got == old:
             n_old += 1
-        else:
-            ctx.violation("corr:desc:" + vlib.sha(c.args())[:16],
-                          "describe_tree output matches neither the repaired nor the snapshot model of the printer: %s" % json.dumps(rep)[:900],
-                          dict(rep, correspondence="harness/h_c16_desc.c vs Sqfs.Quote.describeNode / Sqfs.QuoteOld.describeNode"), found_input=False)
-            continue
         if got == "err":
             n_err += 1
+            if not matches:
+                capped(ctx, caps, "corr:desc", "corr:desc:" + vlib.sha(c.args())[:16],
+                       "describe_tree refuses a node that both printer models accept (or vice versa): %s" % json.dumps(rep)[:900],
+                       dict(rep, correspondence="harness/h_c16_desc.c vs Sqfs.Quote.describeNode / Sqfs.QuoteOld.describeNode"), False)
             continue
         a, b = dec[i]
         rep.update(impl_decoded=a, model_decoded=b)
         nontrivial.add(impl[i])
         if a != b:
-            ctx.violation("corr:parse:" + vlib.sha(ops2[idx.index(i)])[:16],
-                          "parser side disagrees with its model on a describe line: %s" % json.dumps(rep)[:900],
-                          dict(rep, correspondence="fstree_from_file.c vs Sqfs.Quote.fstreeFromFile"), found_input=False)
+            capped(ctx, caps, "corr:parse", "corr:parse:" + vlib.sha(ops2[idx.index(i)])[:16],
+                   "parser side disagrees with its model on a describe line: %s" % json.dumps(rep)[:900],
+                   dict(rep, correspondence="fstree_from_file.c vs Sqfs.Quote.fstreeFromFile"), False)
         # the specification, evaluated on the implementation's behaviour: printer ∘ parser must yield the node
         if a != exp:
             n_fail += 1
@@ -505,8 +518,13 @@ def check_cases(ctx, pair, cases, stats):
             key = "D13:" + cause if cause else "rt:" + vlib.sha(c.args())[:16]
             what = ("describe line for %s is not decoded back to the node by the pack-file parser (class %s): line=%r decoded=%s expected=%s"
                     % (c.as_dict(), cause or "unexpected", untok(impl[i][3:]), a, exp))
-            known[key] = known.get(key, 0) + 1
-            ctx.violation(key, what[:1200], dict(rep, cls=cause))
+            known[key if cause else "rt:*"] = known.get(key if cause else "rt:*", 0) + 1
+            capped(ctx, caps, key if cause else "rt", key, what[:1200], dict(rep, cls=cause), True, limit=3 if cause else 5)
+        elif not matches:
+            # round trip holds but the printer is no longer the one the theorems are about
+            capped(ctx, caps, "corr:desc", "corr:desc:" + vlib.sha(c.args())[:16],
+                   "describe_tree output matches neither the repaired nor the snapshot model of the printer: %s" % json.dumps(rep)[:900],
+                   dict(rep, correspondence="harness/h_c16_desc.c vs Sqfs.Quote.describeNode / Sqfs.QuoteOld.describeNode"), False)
         if len(samples) < 6 and (i % 997 == 3):
             samples.append({"case": c.as_dict(), "line": repr(untok(impl[i][3:])), "decoded": a})
     stats.update({"desc_cases": len(cases), "printer_eq_both_models": n_both, "printer_eq_repaired_only": n_new,
@@ -536,6 +554,7 @@ def check_trees(ctx, pair, trees, stats, roots):
         return
     model2 = pair.model(ops2)
     pos, j, fails = 0, 0, 0
+    caps = {}
     for i, t in enumerate(trees):
         r = meta[i]
         nn = len(t)
@@ -545,8 +564,8 @@ def check_trees(ctx, pair, trees, stats, roots):
         got = norm_err(impl[i])
         rep = {"tree": ops_i[i], "impl": impl[i], "model_new": new, "model_old": old}
         if got not in (new, old):
-            ctx.violation("corr:dtree:" + vlib.sha(ops_i[i])[:16], "describe_tree on a tree matches neither printer model: %s" % json.dumps(rep)[:900],
-                          rep, found_input=False)
+            capped(ctx, caps, "corr:dtree", "corr:dtree:" + vlib.sha(ops_i[i])[:16], "describe_tree on a tree matches neither printer model: %s" % json.dumps(rep)[:900],
+                   rep, False)
             if got.startswith("ok "):
                 j += 1
             continue
@@ -555,8 +574,8 @@ def check_trees(ctx, pair, trees, stats, roots):
         a, b = impl2[j], model2[j]
         j += 1
         if a != b:
-            ctx.violation("corr:parse:" + vlib.sha(ops2[j - 1])[:16], "parser side disagrees with its model on describe output of a tree",
-                          dict(rep, impl_decoded=a, model_decoded=b), found_input=False)
+            capped(ctx, caps, "corr:parse", "corr:parse:" + vlib.sha(ops2[j - 1])[:16], "parser side disagrees with its model on describe output of a tree",
+                   dict(rep, impl_decoded=a, model_decoded=b), False)
         ents = [e.split(" ", 2)[2].rsplit(" st=", 1)[0] for e in exps if e.startswith("ents 1 ")]
         want = "ents %d%s st=ok" % (len(ents), "".join(" " + e for e in ents))
         if a != want:
@@ -568,8 +587,9 @@ def check_trees(ctx, pair, trees, stats, roots):
                     if cause:
                         break
             key = "D13:" + cause if cause else "rt:tree:" + vlib.sha(ops_i[i])[:16]
-            ctx.violation(key, "describe output of a tree is not decoded back to its nodes (class %s): decoded=%s expected=%s" % (cause or "unexpected", a[:400], want[:400]),
-                          dict(rep, decoded=a, expected=want, cls=cause))
+            capped(ctx, caps, key if cause else "rt:tree", key,
+                   "describe output of a tree is not decoded back to its nodes (class %s): decoded=%s expected=%s" % (cause or "unexpected", a[:400], want[:400]),
+                   dict(rep, decoded=a, expected=want, cls=cause), True, limit=2 if cause else 5)
     stats.update({"trees": len(trees), "tree_nodes": sum(len(t) for t in trees), "tree_roundtrip_failures": fails})
 
 
@@ -689,6 +709,7 @@ def check_tools(ctx, pair, stats):
         runs.append((t, root, st, detail, listing))
         ops_m += [tree_line("new", root, t), tree_line("old", root, t)]
     model = pair.model(ops_m) if ops_m else []
+    caps = {}
     for i, (t, root, st, detail, listing) in enumerate(runs):
         new, old = model[2 * i], model[2 * i + 1]
         got = "ok " + tok(listing)
@@ -697,10 +718,11 @@ def check_tools(ctx, pair, stats):
         if st == "skip":
             continue
         if got not in (new, old):
-            ctx.violation("corr:tool:" + vlib.sha(rep["tree"])[:16],
-                          "`rdsquashfs -d` output matches neither printer model on a generated image: got %r" % listing[:300], dict(rep, model_new=new, model_old=old),
-                          found_input=False)
-            continue
+            if st != "fail":
+                capped(ctx, caps, "corr:tool", "corr:tool:" + vlib.sha(rep["tree"])[:16],
+                       "`rdsquashfs -d` output matches neither printer model on a generated image: got %r" % listing[:300], dict(rep, model_new=new, model_old=old),
+                       False)
+                continue
         if st == "fail":
             cause = None
             if got == old and got != new:
@@ -709,7 +731,8 @@ def check_tools(ctx, pair, stats):
                     if cause:
                         break
             key = "D13:" + cause if cause else "tool:" + vlib.sha(rep["tree"])[:16]
-            ctx.violation(key, "tool-level round trip failed (class %s): %s" % (cause or "unexpected", detail[:600]), dict(rep, cls=cause))
+            capped(ctx, caps, key if cause else "tool", key, "tool-level round trip failed (class %s): %s" % (cause or "unexpected", detail[:600]),
+                   dict(rep, cls=cause), True, limit=2 if cause else 5)
     stats.update({"tool_trees": len(trees), "tool_results": res})
     pair.evals += len(trees)
 
@@ -732,7 +755,8 @@ def run(ctx):
     pair = Pair(ctx, build_harness(ctx))
     stats = {}
     run_simple_ops(ctx, pair, stats)
-    cases, nstrings, nexh, nrand = gen_cases(ctx)
+    cases, nstrings, nexh, nrand, ncorpus_cases = gen_cases(ctx)
+    stats["corpus_cases"] = ncorpus_cases
     distinct = check_cases(ctx, pair, cases, stats) or set()
     trees = gen_trees(ctx, 60 if ctx.quick() else 1500)
     check_trees(ctx, pair, trees, stats, [None, b"R", b"r s", b"/abs/\"q\"", b"t\\", None])
